@@ -37,7 +37,14 @@ def gen_program(rng):
         x = rng.choice(vars_)
         k = rng.random()
         if k < 0.15:
-            prog.append(('print', ('bin', rng.choice(['==', '!=']), V(x), ('nil',))))
+            # nil on either side of the comparison
+            op = rng.choice(['==', '!='])
+            prog.append(('print', ('bin', op, V(x), ('nil',)) if rng.random() < 0.5 else ('bin', op, ('nil',), V(x))))
+        elif k < 0.19:
+            prog.append(('ifelse', ('bin', rng.choice(['==', '!=']), ('nil',), V(x)), [('print', ('str', 'then'))], [('print', ('str', 'else'))]))
+        elif k < 0.23:
+            # `get` in STATEMENT position: the value is dropped, the nil check is not
+            prog += [('expr', ('get', V(x))), ('print', ('str', 'still here'))]
         elif k < 0.25:
             prog.append(('print', ('bin', '==', V(x), I(rng.randint(1, 9)))))
         elif k < 0.45:
@@ -133,7 +140,7 @@ def container_cases(rng, n):
         for _ in range(rng.randint(6, 14)):
             x = rng.choice(places)
             v = val(x)
-            op = rng.choice(["isnil", "or", "get", "get", "unwrap", "eq", "set", "getsum"])
+            op = rng.choice(["isnil", "or", "get", "get", "unwrap", "eq", "set", "getsum", "getstmt", "nil-left"])
             if op == "isnil":
                 src += "print %s == nil\n" % x
                 exp.append("true" if v is None else "false")
@@ -153,6 +160,16 @@ def container_cases(rng, n):
                 k = rng.randint(0, 3)
                 src += "%s = pos(%d)\n" % (w, k)
                 st[w] = k or None
+            elif op == "nil-left":
+                src += "print nil != %s\n" % x
+                exp.append("false" if v is None else "true")
+            elif op == "getstmt":
+                line = src.count("\n") + 1
+                src += "get %s\nprint \"checked\"\n" % x          # statement position: value dropped, nil still stops
+                if v is None:
+                    fail_line = line
+                    break
+                exp.append("checked")
             elif op == "getsum":
                 y = rng.choice(places)
                 line = src.count("\n") + 1
